@@ -3,7 +3,7 @@ from .. import simcheck
 
 
 def main(tier, seed):
-    rep = simcheck.sim_main("C16", tier, seed, ["F5:priority-pool,busy:priority-pool,deep:priority-pool,inject:priority-pool,ratio:priority-pool,mixed:priority-pool"] if tier == "quick" else ["F5:priority-pool,busy:priority-pool,deep:priority-pool,inject:priority-pool,ratio:priority-pool,sibling:priority-pool,mixed:priority-pool"])
+    rep = simcheck.sim_main("C16", tier, seed, ["F5:priority-pool,busy:priority-pool,deep:priority-pool,inject:priority-pool,ratio:priority-pool,mixed:priority-pool,scale:priority-pool"] if tier == "quick" else ["F5:priority-pool,busy:priority-pool,deep:priority-pool,inject:priority-pool,ratio:priority-pool,sibling:priority-pool,mixed:priority-pool,scale:priority-pool"])
     return rep.finish()
 
 
